@@ -144,13 +144,13 @@ theorem run_hits {p : Policy U} {ok : Item U → Int → Bool} (hs : Sound p ok)
   exact hs
 
 /-- a policy that never looks up and never computes a positive TTL never touches the store and never hits -/
-theorem step_disabled {p : Policy U} (hl : p.lookup = false) (ht : ∀ now u, p.ttl now u ≤ 0) (k : StoreKind)
+theorem step_disabled {p : Policy U} (hl : ∀ u, p.lookup u = false) (ht : ∀ now u, p.ttl now u ≤ 0) (k : StoreKind)
     (s : Store (Item U)) (now : Int) (idx : Nat) (r : Req U) :
     (step p k s now idx r).1 = s ∧
       ((step p k s now idx r).2 = .denied ∨ ∃ it, (step p k s now idx r).2 = .fresh it none) := by
   have hnot : ¬ (0 < p.ttl now r.up) := by have := ht now r.up; omega
   unfold step
-  simp only [hl]
+  simp only [hl r.up]
   split
   · rename_i h; cases h
   · split
@@ -170,7 +170,7 @@ theorem step_no_store (p : Policy U) (k : StoreKind) (s : Store (Item U)) (now :
     · exact ⟨rfl, by intro it ttl h; cases h⟩
 
 /-- histories under a policy that never looks up and never computes a positive TTL -/
-theorem run_disabled {p : Policy U} (hl : p.lookup = false) (ht : ∀ now u, p.ttl now u ≤ 0) (k : StoreKind)
+theorem run_disabled {p : Policy U} (hl : ∀ u, p.lookup u = false) (ht : ∀ now u, p.ttl now u ≤ 0) (k : StoreKind)
     (reqs : List (Req U)) : ∀ (s : Store (Item U)) (now : Int) (idx : Nat),
       runStore p k s now idx reqs = s ∧
       ∀ t o, (t, o) ∈ run p k s now idx reqs → o = .denied ∨ ∃ it, o = .fresh it none := by
@@ -260,14 +260,14 @@ theorem cacheTTL_le_configured (m : Mech) (hm : m ≠ .jwtFinalizer) (c : Int) (
       | (have := Int.min_le_left c (‹Int› - Mech.jwtKey.leeway); omega)
       | (have := Int.min_le_left c (‹Int› - Mech.clientCreds.leeway); omega)
 
-theorem validityLeeway_pos (m : Mech) (vl : Nat) : 0 < validityLeeway m vl := by
+theorem validityLeeway_pos (m : Mech) (vl : Int) (h0 : 0 ≤ vl) : 0 < validityLeeway m vl := by
   have := default_validity_leeway_pos
   unfold validityLeeway
   split
   · cases m <;> simp only <;> omega
   · omega
 
-theorem mayReuse_down (m : Mech) (cfg : Option Int) (vl : Nat) (it : Item Answer) (t t' : Int)
+theorem mayReuse_down (m : Mech) (cfg : Option Int) (vl : Int) (it : Item Answer) (t t' : Int)
     (hle : t' ≤ t) (h : mayReuse m cfg vl it t = true) : mayReuse m cfg vl it t' = true := by
   cases m <;> simp only [mayReuse] at h ⊢
   case jwtFinalizer => simp only [decide_eq_true_eq] at h ⊢; omega
@@ -278,7 +278,7 @@ theorem mayReuse_down (m : Mech) (cfg : Option Int) (vl : Nat) (it : Item Answer
       simp only [he, decide_eq_true_eq] at h ⊢
       omega
 
-theorem mech_sound (m : Mech) (cfg : Option Int) (vl : Nat) :
+theorem mech_sound (m : Mech) (cfg : Option Int) (vl : Int) (h0 : 0 ≤ vl) :
     Sound (mechPolicy m cfg vl) (mayReuse m cfg vl) where
   down := mayReuse_down m cfg vl
   stored := by
@@ -287,7 +287,7 @@ theorem mech_sound (m : Mech) (cfg : Option Int) (vl : Nat) :
     show mayReuse m cfg vl ⟨⟨exp, more⟩, now, idx⟩
       (now + cacheTTL m cfg (remaining m cfg now ⟨exp, more⟩)) = true
     replace hpos : 0 < cacheTTL m cfg (remaining m cfg now ⟨exp, more⟩) := hpos
-    have hvl := validityLeeway_pos m vl
+    have hvl := validityLeeway_pos m vl h0
     have hlee := leeway_nonneg m
     have htok := token_leeway_pos
     cases hr : remaining m cfg now ⟨exp, more⟩ with
@@ -314,8 +314,9 @@ theorem mech_sound (m : Mech) (cfg : Option Int) (vl : Nat) :
           omega
 
 /-- a configured TTL that is not positive switches the lookup off … -/
-theorem mech_lookup_off (m : Mech) (hm : m ≠ .jwtFinalizer) (proto : Option Int) (c : Int) (hc : c ≤ 0) (vl : Nat) :
-    (mechPolicy m (effective proto (some c)) vl).lookup = false := by
+theorem mech_lookup_off (m : Mech) (hm : m ≠ .jwtFinalizer) (proto : Option Int) (c : Int) (hc : c ≤ 0) (vl : Int) :
+    ∀ u, (mechPolicy m (effective proto (some c)) vl).lookup u = false := by
+  intro _
   show lookupEnabled m (effective proto (some c)) = false
   cases m
   case jwtFinalizer => exact absurd rfl hm
@@ -324,7 +325,7 @@ theorem mech_lookup_off (m : Mech) (hm : m ≠ .jwtFinalizer) (proto : Option In
     simp [lookupEnabled, effective, ptrEnabled, hnot]
 
 /-- … and no positive TTL is ever computed -/
-theorem mech_ttl_off (m : Mech) (hm : m ≠ .jwtFinalizer) (proto : Option Int) (c : Int) (hc : c ≤ 0) (vl : Nat) :
+theorem mech_ttl_off (m : Mech) (hm : m ≠ .jwtFinalizer) (proto : Option Int) (c : Int) (hc : c ≤ 0) (vl : Int) :
     ∀ now u, (mechPolicy m (effective proto (some c)) vl).ttl now u ≤ 0 := by
   intro now u
   have := cacheTTL_le_configured m hm c (remaining m (effective proto (some c)) now u)
@@ -339,7 +340,7 @@ def withinMargin (m : Mech) (it : Item Answer) (t : Int) : Bool :=
   | none => true
 
 theorem margin_sound (m : Mech) (hm : m ≠ .jwtFinalizer) (hm' : m ≠ .remoteAuthz ∧ m ≠ .contextualizer)
-    (cfg : Option Int) (vl : Nat) : Sound (mechPolicy m cfg vl) (withinMargin m) where
+    (cfg : Option Int) (vl : Int) : Sound (mechPolicy m cfg vl) (withinMargin m) where
   down := by
     intro it t t' hle h
     simp only [withinMargin] at h ⊢
@@ -367,9 +368,9 @@ theorem margin_sound (m : Mech) (hm : m ≠ .jwtFinalizer) (hm' : m ≠ .remoteA
       omega
 
 /-- keeping the cache leeway implies that the reuse is permitted, for every instance of the mechanism -/
-theorem mayReuse_of_withinMargin (m : Mech) (hm : m ≠ .jwtFinalizer) (cfg : Option Int) (vl : Nat)
+theorem mayReuse_of_withinMargin (m : Mech) (hm : m ≠ .jwtFinalizer) (cfg : Option Int) (vl : Int) (h0 : 0 ≤ vl)
     (it : Item Answer) (t : Int) (h : withinMargin m it t = true) : mayReuse m cfg vl it t = true := by
-  have hvl := validityLeeway_pos m vl
+  have hvl := validityLeeway_pos m vl h0
   have hlee := leeway_nonneg m
   have htok := token_leeway_pos
   cases m <;> simp only [mayReuse, withinMargin] at h ⊢
@@ -381,10 +382,18 @@ theorem mayReuse_of_withinMargin (m : Mech) (hm : m ≠ .jwtFinalizer) (cfg : Op
       simp only [ha, decide_eq_true_eq] at h ⊢
       omega
 
-/-- a response with an explicit freshness lifetime `l` never gets a TTL above it, whatever `default_ttl` says -/
+theorem initialAge_eq (x : Exchange) (now : Int) : x.initialAge now = initialAge now x := rfl
+
+theorem initialAge_nonneg (now : Int) (x : Exchange) : 0 ≤ initialAge now x := by
+  unfold initialAge; omega
+
+/-- a response with an explicit freshness lifetime `l` never gets a TTL above what is left of it after the age it
+arrived with, whatever `default_ttl` says -/
 theorem httpTTL_le_lifetime (dttl now : Int) (x : Exchange) (l : Int)
-    (hl : freshnessLifetime now x = some l) : httpTTL dttl now x ≤ max 0 l := by
+    (hl : freshnessLifetime now x = some l) : httpTTL dttl now x ≤ max 0 (l - initialAge now x) := by
+  have hage := initialAge_nonneg now x
   unfold httpTTL
+  rw [initialAge_eq]
   by_cases hs : x.storable = true
   · simp only [hs, Bool.not_true, Bool.false_eq_true, if_false]
     unfold freshnessLifetime at hl
@@ -395,40 +404,117 @@ theorem httpTTL_le_lifetime (dttl now : Int) (x : Exchange) (l : Int)
       simp only [hm] at hl ⊢
       cases he : x.expires with
       | absent => simp only [he] at hl; cases hl
-      | invalid => simp only [he] at hl ⊢; cases hl; simp
+      | invalid => simp only [he] at hl ⊢; cases hl; simp; omega
       | valid e => simp only [he] at hl ⊢; cases hl; omega
   · simp only [hs, Bool.not_false, if_true]; omega
 
-theorem mayServe_down (it : Item Exchange) (t t' : Int) (hle : t' ≤ t) (h : mayServe it t = true) :
-    mayServe it t' = true := by
+/-- a response without explicit expiration time gets the configured `default_ttl` at most — whatever else it
+carries (`Last-Modified` in particular) -/
+theorem httpTTL_le_default (dttl now : Int) (x : Exchange) (hl : freshnessLifetime now x = none) :
+    httpTTL dttl now x ≤ max 0 dttl := by
+  have hage := initialAge_nonneg now x
+  unfold httpTTL
+  rw [initialAge_eq]
+  by_cases hs : x.storable = true
+  · simp only [hs, Bool.not_true, Bool.false_eq_true, if_false]
+    unfold freshnessLifetime at hl
+    unfold Exchange.expiresIn
+    cases hm : x.maxAge with
+    | some a => simp only [hm] at hl; cases hl
+    | none =>
+      simp only [hm] at hl ⊢
+      cases he : x.expires with
+      | absent => simp only [reduceCtorEq, if_false]; split <;> omega
+      | invalid => simp only [he] at hl; cases hl
+      | valid e => simp only [he] at hl; cases hl
+  · simp only [hs, Bool.not_false, if_true]; omega
+
+theorem mayServe_down (dttl : Int) (it : Item Exchange) (t t' : Int) (hle : t' ≤ t)
+    (h : mayServe dttl it t = true) : mayServe dttl it t' = true := by
   unfold mayServe at h ⊢
   cases hl : freshnessLifetime it.time it.ans with
-  | none => rfl
+  | none =>
+    simp only [hl, decide_eq_true_eq] at h ⊢
+    omega
   | some l =>
     simp only [hl, decide_eq_true_eq] at h ⊢
     omega
 
-theorem http_sound (dttl : Int) : Sound (httpPolicy dttl) mayServe where
-  down := mayServe_down
+theorem http_sound (dttl : Int) : Sound (httpPolicy dttl) (mayServe dttl) where
+  down := mayServe_down dttl
   stored := by
     intro now x idx _ hpos
-    show mayServe ⟨x, now, idx⟩ (now + httpTTL dttl now x) = true
+    show mayServe dttl ⟨x, now, idx⟩ (now + httpTTL dttl now x) = true
     replace hpos : 0 < httpTTL dttl now x := hpos
     unfold mayServe
     cases hl : freshnessLifetime now x with
-    | none => rfl
+    | none =>
+      have := httpTTL_le_default dttl now x hl
+      simp only [decide_eq_true_eq]
+      omega
     | some l =>
       have := httpTTL_le_lifetime dttl now x l hl
       simp only [decide_eq_true_eq]
       omega
 
-/-- nothing is computed for a response whose freshness lifetime is not positive -/
-theorem httpTTL_nonpos (dttl now : Int) (x : Exchange) (h : mayStore now x = false) : httpTTL dttl now x ≤ 0 := by
+/-- a `no-cache` response is never given a TTL -/
+theorem httpTTL_noCache (dttl now : Int) (x : Exchange) (h : x.noCache = true) : httpTTL dttl now x = 0 := by
+  unfold httpTTL Exchange.storable
+  simp [h]
+
+/-- nothing is computed for a response that must not be stored -/
+theorem httpTTL_nonpos (dttl now : Int) (x : Exchange) (h : mayStore dttl now x = false) :
+    httpTTL dttl now x ≤ 0 := by
+  have hage := initialAge_nonneg now x
   unfold mayStore at h
-  cases hl : freshnessLifetime now x with
-  | none => simp [hl] at h
-  | some l =>
-    simp only [hl, decide_eq_false_iff_not] at h
-    have := httpTTL_le_lifetime dttl now x l hl
+  by_cases hn : x.noCache = true
+  · rw [httpTTL_noCache dttl now x hn]; omega
+  · simp only [hn, Bool.not_false, Bool.true_and] at h
+    cases hl : freshnessLifetime now x with
+    | none =>
+      simp only [hl, decide_eq_false_iff_not] at h
+      have := httpTTL_le_default dttl now x hl
+      omega
+    | some l =>
+      simp only [hl, decide_eq_false_iff_not] at h
+      have := httpTTL_le_lifetime dttl now x l hl
+      omega
+
+/-! ## the configured TTL as a bound on hits (one instance) -/
+
+/-- reuse no later than the configured TTL after the result was obtained -/
+def withinConfigured (c : Int) (it : Item Answer) (t : Int) : Bool := decide (t ≤ it.time + max 0 c)
+
+theorem configured_sound (m : Mech) (hm : m ≠ .jwtFinalizer) (c : Int) (vl : Int) :
+    Sound (mechPolicy m (some c) vl) (withinConfigured c) where
+  down := by
+    intro it t t' hle h
+    simp only [withinConfigured, decide_eq_true_eq] at h ⊢
     omega
+  stored := by
+    intro now ans idx _ _
+    show withinConfigured c ⟨ans, now, idx⟩ (now + cacheTTL m (some c) (remaining m (some c) now ans)) = true
+    have := cacheTTL_le_configured m hm c (remaining m (some c) now ans)
+    simp only [withinConfigured, decide_eq_true_eq]
+    omega
+
+/-- whatever may be reused would also pass the validity check of a fresh answer at that moment (the check the
+introspection authenticator repeats on a cache hit) -/
+theorem acceptsFresh_of_mayReuse (m : Mech) (hm : m = .introspection ∨ m = .generic) (cfg : Option Int) (vl : Int)
+    (it : Item Answer) (t : Int) (h : mayReuse m cfg vl it t = true) :
+    acceptsFresh m vl (remaining m cfg t it.ans) = true := by
+  rcases hm with hm | hm <;> subst hm <;> simp only [mayReuse, remaining] at h ⊢
+  all_goals
+    cases he : it.ans.exp with
+    | none => simp [acceptsFresh]
+    | some e =>
+      simp only [he, decide_eq_true_eq] at h
+      simp only [Option.map_some, acceptsFresh, decide_eq_true_eq]
+      omega
+
+/-! ## endpoint settings -/
+
+theorem noCachePolicy_off : (∀ u, noCachePolicy.lookup u = false) ∧ ∀ now u, noCachePolicy.ttl now u ≤ 0 :=
+  ⟨fun _ => rfl, fun _ _ => by show (0 : Int) ≤ 0; omega⟩
+
 end Heimdall.Validity
